@@ -29,10 +29,10 @@ theorem createBody_cixp {fs : FS} (hM : MedX fs.vol fs.dev.disk files gh X) (hR 
       ((r = .err .NotEnoughSpace ∧ fs'.dev.disk = fs.dev.disk) ∨
        (∃ b off, r = .ok (DirEntry.new name 0 0 now b off) ∧ RawOKX fs.vol.fatType fs'.dev.disk files ∧
           sCluster fs.vol.fatType (slotAt fs'.dev.disk b off) = 0 ∧ sSize (slotAt fs'.dev.disk b off) = 0)) := by
-  obtain ⟨r, fs', hrun, hn', hc', hcase⟩ := writeNew_cixp hM hR hU hn hc hv name hlen 0 0 now
+  obtain ⟨r, fs', hrun, hn', hc', hcase⟩ := writeNew_cixp hM hR (fun c hc => hU c (memG_used hM hc)) hn hc hv name hlen 0 0 now
   refine ⟨r, fs', hrun, ?_⟩
   have hci0 := cixp_of_medX hM hR (dirInit_of_used hM hU)
-  rcases hcase with ⟨hr, hd', hv', hw'⟩ | ⟨v1, d1, G1, pre, post, old, hS, hr, hd', hR1, hcr⟩
+  rcases hcase with ⟨hr, hd', hv', hw'⟩ | ⟨v1, d1, G1, pre, post, old, hS, hr, hd', hR1, hDf, hcr⟩
   · exact ⟨CrashAll.same hw' hd' hci0, .inl ⟨hr, hd'⟩⟩
   · obtain ⟨hh, _⟩ := validDir_id hM hv
     have hM1 := hS.med
@@ -61,7 +61,7 @@ theorem createBody_cixp {fs : FS} (hM : MedX fs.vol fs.dev.disk files gh X) (hR 
       refine rawOKX_edit hM1 hR1 hS.split hsp' ⟨rfl, rfl⟩ hoth' fun f hf hb ho => ?_
       exact absurd (show fkey f = spos (old.1, old.2.1, bytes) from Prod.ext hb ho)
         ((pendOf_none_iff files _).1 hpend f hf)
-    have hci' : CIXP P fs.vol fs'.dev.disk := (cixp_of_medX hM' hR' (dirInit_of_used hM' hU')).sameGeom hS.sameGeom.symm
+    have hci' : CIXP P fs.vol fs'.dev.disk := (cixp_of_medX hM' hR' hDf).sameGeom hS.sameGeom.symm
     refine ⟨hcr.mono fun d hd => ?_, .inr ⟨old.1, old.2.1, hr, by rw [← hft]; exact hR', ?_⟩⟩
     · rcases hd with hd | hd
       · exact hd
@@ -98,14 +98,14 @@ theorem truncBody_cixp {fs : FS} (hM : MedX fs.vol fs.dev.disk files gh []) (hR 
   have e1 : fs1' = fs1 := by rw [← hcl, hr1] at hrun1; exact (congrArg Prod.snd hrun1).symm
   subst e1
   -- the crash points of the cut
-  have c01 : CrashAll (CIXP P fs.vol) fs fs1' := by
+  have c01 : CrashAll (CIXP P fs.vol) fs fs1' ∧ ∀ c, isUsed fs.vol fs1'.dev.disk c → isUsed fs.vol fs.dev.disk c := by
     rcases hco with ⟨h1, _, _⟩ | ⟨h1, _, hch, hcm⟩
     · have h0 : truncateClusterChain e.cluster fs = (.ok (), fs) := by
         rw [hcl, h1]; unfold truncateClusterChain; rw [if_pos (by decide)]; rfl
       rw [hr1] at h0
       have e0 : fs1' = fs := congrArg Prod.snd h0
       rw [e0]
-      exact CrashAll.same rfl rfl hci0
+      exact ⟨CrashAll.same rfl rfl hci0, fun _ h => h⟩
     · have hhd : (chainOf gh.G (sCluster fs.vol.fatType o)).head? = some (sCluster fs.vol.fatType o) := ChainL.chain_head? hch
       obtain ⟨tail, htail⟩ : ∃ tail, chainOf gh.G (sCluster fs.vol.fatType o) = sCluster fs.vol.fatType o :: tail := by
         cases hcs : chainOf gh.G (sCluster fs.vol.fatType o) with
@@ -116,7 +116,7 @@ theorem truncBody_cixp {fs : FS} (hM : MedX fs.vol fs.dev.disk files gh []) (hR 
           exact ⟨l, by rw [hhd]⟩
       rw [htail] at hcm
       obtain ⟨A, B, hsplit⟩ := List.append_of_mem hcm
-      obtain ⟨s', ht, hcr⟩ := truncate_cixp hM hR (dirInit_of_used hM hU) hn hc (A := A) (B := B) (pre := []) (tail := tail)
+      obtain ⟨s', ht, hcr, hus⟩ := truncate_cixp hM hR (dirInit_of_used hM hU) hn hc (A := A) (B := B) (pre := []) (tail := tail)
         (x := sCluster fs.vol.fatType o) (by rw [List.append_nil, hsplit]; simp) (by
           intro x hx hfx heq
           have := (dirChain_spec hM hx hfx).2
@@ -126,7 +126,8 @@ theorem truncBody_cixp {fs : FS} (hM : MedX fs.vol fs.dev.disk files gh []) (hR 
       rw [← hcl, hr1] at ht
       have e0 : fs1' = s' := congrArg Prod.snd ht
       rw [e0]
-      exact hcr
+      exact ⟨hcr, hus⟩
+  obtain ⟨c01, hus01⟩ := c01
   -- the slot write
   obtain ⟨fs2', hrun2, hd2, hv2, _, _⟩ := writeEntryToDisk_exact fs1' e hn1 hc1
   have e2 : fs2' = fs2 := by rw [hr2] at hrun2; exact (congrArg Prod.snd hrun2).symm
@@ -157,8 +158,12 @@ theorem truncBody_cixp {fs : FS} (hM : MedX fs.vol fs.dev.disk files gh []) (hR 
     split
     · rw [hnonfat _ horeg]
     · exact hnonfat _ hreg
+  have hU2 : ∀ c, isUsed s'.vol s'.dev.disk c → P c := by
+    intro c hc
+    rw [hsg.isUsed, hd2] at hc
+    exact hU c (hus01 c (used_set_nonFat hM.geom horeg hc))
   have hci2 : CIXP P fs.vol s'.dev.disk :=
-    (cixp_of_medX hM2 (by rw [hsg.fatType]; exact hR2)).sameGeom hsg.symm
+    (cixp_of_medX hM2 (by rw [hsg.fatType]; exact hR2) (dirInit_of_used hM2 hU2)).sameGeom hsg.symm
   refine ⟨c01, single_cixp hw hd c01.final hci2, hR2, ?_⟩
   have := slotAt_of_mem (mem_of_mem_objects ho')
   obtain ⟨hp1, hp2⟩ := Prod.mk.inj hpo'
@@ -288,6 +293,7 @@ theorem openFile_callCXP {s : Mgr} {gh : Ghost} (hI : VolInv s gh) (hR : RawOKX 
   -- the lookup leaves the device alone
   have hsame : CallCXP P gh.vol s (afterVol s vi fs') := callCXP_same hwl hdisk hci hR
   have hR1 : RawOKX gh.vol.fatType (afterVol s vi fs').dev.disk (afterVol s vi fs').files := hsame.raw
+  have hU1 : ∀ c, isUsed gh.vol (afterVol s vi fs').dev.disk c → P c := by rw [hdisk]; exact hU
   rcases hcase with ⟨hr, hfresh⟩ | ⟨e, o, hr, hF⟩
   · subst hr
     by_cases hm : mode = .ReadWriteCreate ∨ mode = .ReadWriteCreateOrTruncate ∨ mode = .ReadWriteCreateOrAppend
